@@ -34,7 +34,7 @@ pub fn build(e: &mut Ent, f: &Force) -> (StepCase, Tag) {
     let kind = f.kind.unwrap_or_else(|| e.below(3) as u8);
     let mut er = e.regfile();
     let mut ccr = f.ccr.unwrap_or_else(|| e.u8());
-    let target = e.data_addr(&[Region::Ram, Region::Dram], 2, 2);
+    let target = e.jump_target();
     let top = (e.upper_byte() >> 24) as u8;
     let mut frame = e.data_addr(&[Region::Ram, Region::Dram], 4, 2);
     if frame.abs_diff(target) < 64 {
